@@ -42,7 +42,9 @@ def _copy_output_file(src: str, dst: str) -> str:
 def extract_archive(archive_file: pathlib.Path, staging_path: pathlib.Path):
     try:
         process = subprocess.Popen(
-            ["tar", "xzf", str(archive_file), "-C", str(staging_path)],
+            # An absolute path: tar takes a name of the form `host:file` (a
+            # colon before the first slash) for an archive on a remote machine.
+            ["tar", "xzf", str(archive_file.absolute()), "-C", str(staging_path)],
             shell=False,
         )
         process.wait()
